@@ -312,3 +312,28 @@ Definition model_lines (g : option gir) (ops : list op) : list string :=
   | None => []
   end.
 
+
+(* ---------- compile-time tables (K3): what the model says rustc will find ---------- *)
+
+Definition k3_table (g : gir) : list string :=
+  flat_map (fun gi =>
+      (match gi_new gi with Some _ => ["new|" +++ gi_state gi] | None => [] end)
+      ++ map (fun gm => "m|" +++ gi_state gi +++ "|" +++ gm_name gm +++ "|" +++ gm_target gm +++ "|"
+                        +++ (match gm_payload gm with Some _ => "p" | None => "-" end) +++ "|"
+                        +++ (if gm_async gm then "a" else "-")) (gi_methods gi))
+    (gr_impls g)
+  ++ map (fun t => "acc|" +++ fst (fst t) +++ "|" +++ snd (fst t)) (gr_state_accs g)
+  ++ map (fun p => "sub|" +++ fst p +++ "|" +++ snd p) (gr_substate g)
+  ++ map (fun mk => "mk|" +++ mk) (gr_markers g)
+  ++ map (fun fd => "fld|" +++ fst fd +++ "|" +++ snd fd) (gr_fields g)
+  ++ match gr_dyn g with
+     | Some gd => ["dyn"] ++ map (fun v => "ev|" +++ fst (fst v) +++ "|" +++ snd (fst v)) (gd_events gd)
+                  ++ map (fun a => "dacc|" +++ gc_state a +++ "|" +++ gc_read a +++ "|" +++ gc_write a +++ "|" +++ gc_set a
+                                   +++ "|" +++ join "," (gc_variants a)) (gd_accs gd)
+                  ++ map (fun p => "into|" +++ fst p +++ "|" +++ snd p) (gd_into gd)
+                  ++ map (fun a => "arm|" +++ ga_src a +++ "|" +++ ga_variant a +++ "|" +++ ga_method a +++ "|" +++ ga_ok a) (gd_arms gd)
+     | None => []
+     end.
+
+Definition k3_table_of (feat : bool) (d : defn) : list string :=
+  match front d with Ok m => k3_table (codegen m feat) | Err _ => ["REJECTED"] end.
